@@ -74,7 +74,11 @@ func (l *stubLedger) put(b *blk) {
 	l.chain = append(l.chain, b)
 	l.byID[string(b.Blockid)] = b
 }
-func (l *stubLedger) tip() *blk                         { return l.chain[len(l.chain)-1] }
+func (l *stubLedger) tip() *blk { return l.chain[len(l.chain)-1] }
+
+// forkAtGenesis makes the genesis block the tip again; the blocks stored so far stay known by id (they have become
+// a side branch), so that the next chain built is a fork.
+func (l *stubLedger) forkAtGenesis()                    { l.chain = l.chain[:1] }
 func (l *stubLedger) GetConsensusConf() ([]byte, error) { return l.conf, nil }
 func (l *stubLedger) GetTipBlock() ledger.BlockHandle   { return l.tip() }
 func (l *stubLedger) QueryBlock(id []byte) (ledger.BlockHandle, error) {
